@@ -26,6 +26,8 @@ Tree == JsonTree(CanonVal)
 
 \* the reference ROR2 encoder and parser are inverse (on the textual view: ROR2 carries no types)
 ReferenceRoundTrip == Set => LET r == ParseRor2(AsChars(EncRor2(Tree))) IN r.ok /\ r.tree = Textual(Tree)
+\* abstract equality is a congruence for canonicalisation: equal values have equal canonical forms
+NormCanonStable == Set => Norm(Canon(TopType(sname), CanonVal)) = Norm(CanonVal)
 CanonIdempotent == Set => Canon(TopType(sname), CanonVal) = CanonVal
 \* a data character never is a delimiter, a delimiter never is data: embedding is unambiguous
 DelimitersAreStructural == Set => \A i \in DOMAIN EncRor2(Tree) : LET tk == EncRor2(Tree)[i] IN tk.d => tk.c \in Delims
@@ -33,5 +35,6 @@ DelimitersAreStructural == Set => \A i \in DOMAIN EncRor2(Tree) : LET tk == EncR
 SetSeq(S) == SetToSeq(S)
 ASSUME PrintT(ToJson([reserved |-> [c \in Contexts |-> SetSeq(Reserved(c))]]))
 Export == Set => PrintT(ToJson([schema |-> sname, av |-> val, canon |-> CanonVal, json |-> JsonTree(val), cjson |-> Tree,
-                                 ror2 |-> EncRor2(JsonTree(val))]))
+                                 ror2 |-> EncRor2(JsonTree(val)),
+                                 norm |-> Norm(val), knorm |-> Norm(KeyPart(val))]))
 =============================================================================
